@@ -162,6 +162,7 @@ Definition show_out (o : out) : string :=
   | OStage s (Some e) => show_stage s ++ "!" ++ show_err e
   | ONAs l => "na[" ++ join "," (map show_na (sort_nas l)) ++ "]"
   | ORA r => show_ret r
+  | OLook _ _ => "look"
   | ONone => "na-none"
   end.
 
@@ -204,7 +205,8 @@ Definition do_tok (st : state) (tok : string) : option (state * option string * 
       match bytes_of_tok m, bytes_of_tok i with
       | Some mac, Some ip =>
           match find_loop (loops st) (mkAddr mac ip) 0 with
-          | Some k => let '(st', o) := step std_cfg st (Wake k) in Some (st', Some (show_out o), false)
+          | Some k => (* one whole pass: Lookup in table order, then every Send (the burst is compared as a set) *)
+                      let '(st', o) := wake std_cfg st k (seq 0 (List.length (routers st))) in Some (st', Some (show_out o), false)
           | None => Some (st, Some "na-none", false)
           end
       | _, _ => None
